@@ -12,6 +12,17 @@ element type) and container_of are evaluated on that map, so that it is irreleva
 the source reads a field directly, through a cached local, through a helper's parameter or
 through a pointer to the field.
 
+Calls that the inliner could not resolve statically are resolved by *value*: when the called expression
+evaluates to a function with a body (an entry of a constant table of function pointers, a member of a
+per-mode operations record, a function pointer kept in a local, a job record or passed as an argument),
+the body is executed in a frame of its own (its helpers inlined, its locals qualified by the frame depth).
+Cells of never-written file-scope objects are read from their initialisers by byte address (table[i].f,
+(table + i)->f and a cached element pointer are the same cell); an opaque index into such a table forks
+over the table's positions; a static pointer variable that the program only ever assigns link-time
+constants (an operations record selected at start-up) forks over those constants.  Local aggregates with
+initialiser lists are initialised cell by cell.  A read or write through NULL ends the path like a
+noreturn call.
+
 No repository code is executed; this is abstract interpretation of the CFG facts over a
 finite set of seeded inputs (the brief's option 2), with the environment (calls that are not
 inlined) supplied by the rule as a call model that may fork over outcomes.
@@ -84,9 +95,23 @@ class NeedDecision(Exception):
         self.key = (op, a, b)
 
 
+class NeedValues(Exception):
+    """the path needs the concrete value of an opaque integer that is known to lie in a small set (an index into a
+    constant table): fork over the set"""
+    def __init__(self, sym, values, key=None):
+        Exception.__init__(self, '%s in %s' % (sym if key is None else key, values))
+        self.sym = sym
+        self.values = values
+        self.key = key          # memory cell to be given one of the values (sym is None then)
+
+
+class Trap(Exception):
+    """the path reads or writes through a null pointer"""
+
+
 class St(object):
     """one path state"""
-    __slots__ = ('mem', 'cons', 'memo', 'calls', 'effects', 'marks', 'steps')
+    __slots__ = ('mem', 'cons', 'memo', 'calls', 'effects', 'marks', 'steps', 'stack')
 
     def __init__(self):
         self.mem = {}
@@ -96,6 +121,7 @@ class St(object):
         self.effects = []
         self.marks = {}     # free for the rule (counters, flags)
         self.steps = 0
+        self.stack = ()     # frames of functions entered by value: (callee Func, return block, return index, call event)
 
     def fork(self):
         s = St()
@@ -106,6 +132,7 @@ class St(object):
         s.effects = list(self.effects)
         s.marks = dict(self.marks)
         s.steps = self.steps
+        s.stack = self.stack
         return s
 
     # -- constraints -------------------------------------------------------
@@ -198,16 +225,24 @@ class Machine(object):
     call's value with machine.set_result()).
     on_store(machine, st, event, loc, value) is told every store before it is applied."""
 
-    def __init__(self, prog, fn, call_model=None, on_store=None, max_paths=60000, max_steps=6000):
+    def __init__(self, prog, fn, call_model=None, on_store=None, max_paths=60000, max_steps=6000, max_frames=8,
+                 inline_depth=16):
         self.prog = prog
         self.fn = fn
         self.call_model = call_model
         self.on_store = on_store
         self.max_paths = max_paths
         self.max_steps = max_steps
+        self.max_frames = max_frames
+        self.inline_depth = inline_depth
         self.globals = set()
         self._keys = {}
         self._consts = {}
+        self._bodies = {}
+        self._vsets = {}
+        self._scan_globals(fn)
+
+    def _scan_globals(self, fn):
         from ..core import walk
         for e in fn.events():
             for x in walk(e):
@@ -235,6 +270,11 @@ class Machine(object):
         t = t.replace('const ', '').replace('volatile ', '').strip()
         if t.endswith('*'):
             return 8
+        if '(*' in t:
+            # pointer to function (or to array); an array of those has no scalar size
+            i = t.index('(*')
+            j = t.find(')', i)
+            return 8 if j > 0 and '[' not in t[i:j] else None
         if '[' in t:
             return None
         if t in SCALAR_SIZE:
@@ -290,6 +330,13 @@ class Machine(object):
             return None
         t = t.strip()
         if '(*' in t:
+            # `R (*const[3])(A)`: array of function pointers, the element is `R (*const)(A)`; a plain pointer to function
+            # points to no object
+            i = t.index('(*')
+            j = t.find(')', i)
+            if j > 0 and '[' in t[i:j]:
+                a, b = t.index('[', i), t.index(']', i)
+                return (t[:a] + t[b + 1:]).strip()
             return None
         if '[' in t:
             return t[:t.index('[')].strip()
@@ -344,6 +391,66 @@ class Machine(object):
             L = L[1]
         return L
 
+    # -- frames (functions entered by value) ---------------------------------
+    def curfn(self, st):
+        return st.stack[-1][0] if st.stack else self.fn
+
+    def vloc(self, st, name, vk=None):
+        """location of a variable: file-scope objects are shared, locals/parameters/return temporaries of a function that
+        was entered dynamically (through a function pointer) belong to its frame"""
+        d = len(st.stack)
+        if d == 0 or vk in ('global', 'staticlocal'):
+            return ('var', name)
+        return ('var', name, d)
+
+    @staticmethod
+    def is_frame_local(L):
+        return L[0] == 'var' and len(L) == 3
+
+    def target_of(self, st, e, fv):
+        """the function with a body that this call event enters, given the value of the called expression"""
+        if isinstance(fv, tuple) and len(fv) == 2 and fv[0] == 'func':
+            name = fv[1]
+        elif 'fnexpr' not in e and e.get('callee'):
+            name = e['callee']
+        else:
+            return None
+        cur = self.curfn(st)
+        unit = self.prog.unit_of(getattr(cur, 'inlined_from', None) or cur)
+        t = self.prog.resolve(unit, name) if unit else self.prog.funcs.get(name)
+        if t is None or not t.blocks:
+            return None
+        return t
+
+    def body_of(self, t):
+        g = self._bodies.get(t.q)
+        if g is None:
+            from .. import roles
+            g = self._bodies[t.q] = roles.inlined(self.prog, t, depth=self.inline_depth)
+            self._scan_globals(g)
+        return g
+
+    def enter(self, st, e, t, args, b, i):
+        """push a frame for t; (b, i) is where the caller continues"""
+        if len(st.stack) >= self.max_frames:
+            raise AnalysisBroken('%s: more than %d nested calls through function values (recursion?)' % (self.fn.name, self.max_frames))
+        g = self.body_of(t)
+        st.stack = st.stack + ((g, b, i, e),)
+        for pi, p in enumerate(t.params):
+            L = self.vloc(st, p['name'], 'param')
+            self.forget(st, L)
+            self.write(st, L, args[pi] if pi < len(args) else Sym(('param', p['name'])))
+        return g
+
+    def leave(self, st, value):
+        """pop the innermost frame; returns (block, index) where the caller continues"""
+        g, b, i, e = st.stack[-1]
+        st.stack = st.stack[:-1]
+        if value is None:
+            value = Sym(('call', g.name, e.get('loc')))
+        self.set_result(st, e, value)
+        return b, i
+
     # -- memory ------------------------------------------------------------
     def key(self, L):
         """memory is keyed by byte address where the layout is known, so that p->a[1], *(p->a + 1) and q[1] with
@@ -367,10 +474,15 @@ class Machine(object):
         k = self.key(L)
         if k in st.mem:
             return st.mem[k]
+        if self.root_of(L) == ('obj', 0):
+            raise Trap()
         v = self.const_init(L)
         if v is None:
+            vs = self.value_set(L, k)
+            if vs:
+                raise NeedValues(None, vs, key=k)
             origin = L
-            if L[0] == 'var' and L[1] in self.globals:
+            if L[0] == 'var' and len(L) == 2 and L[1] in self.globals:
                 origin = ('global', L[1])
             v = Sym(origin)
         st.mem[k] = v
@@ -378,14 +490,19 @@ class Machine(object):
 
     def const_init(self, L):
         """value of a cell of a file-scope object that has an initialiser and is never written (lookup tables)"""
-        steps = []
-        X = L
-        while X[0] in ('fld', 'idx'):
-            steps.append(X)
-            X = X[1]
-        if X[0] != 'var' or X[1] not in self.globals:
+        node = self.const_at(L)
+        if node is None:
+            node = self.const_node(L)
+        if not isinstance(node, dict) or node.get('k') == 'init':
+            return node if isinstance(node, int) else None
+        try:
+            v = self.ev(node, St())
+        except (NeedDecision, NeedValues):
             return None
-        name = X[1]
+        return v if isinstance(v, int) or (isinstance(v, tuple) and v and v[0] in ('func', 'str')) else None
+
+    def _const_global(self, name):
+        """(initialiser, type) of a file-scope object that is never written, else (None, None)"""
         if name not in self._consts:
             root = getattr(self.fn, 'inlined_from', None) or self.fn
             unit = self.prog.unit_of(root)
@@ -393,8 +510,73 @@ class Machine(object):
             init = g.get('init') if isinstance(g, dict) else None
             if init is None or self.prog.global_writers(name):
                 init = None
-            self._consts[name] = init
-        node = self._consts[name]
+            self._consts[name] = (init, g.get('type') if isinstance(g, dict) else None)
+        return self._consts[name]
+
+    def const_at(self, L):
+        """initialiser node of the scalar cell at the byte address of L inside a never-written file-scope object, however
+        the address was computed (table[i].f, (table + i)->f, a cached element pointer); None when not resolvable"""
+        a = self.locaddr(L)
+        if a is None or a[0][0] != 'var' or len(a[0]) != 2 or a[0][1] not in self.globals:
+            return None
+        node, t = self._const_global(a[0][1])
+        if node is None:
+            return None
+        return self.const_at_node(node, t, a[1])
+
+    def const_at_node(self, node, t, off):
+        """the scalar initialiser at byte offset `off` of an object of type t initialised by `node` (0: left out)"""
+        if node is None or not t or off < 0:
+            return None
+        for _ in range(16):
+            while isinstance(node, dict) and node.get('k') in ('cast', 'compound') and isinstance(node.get('e'), dict):
+                node = node['e']
+            if isinstance(node, dict) and node.get('k') == 'init' and node.get('elems') is not None and '[' in t:
+                i, j = t.index('['), t.index(']')
+                et = (t[:i] + t[j + 1:]).strip()
+                esz = self.sizeof_type(et) if '[' not in et else None
+                if not esz:
+                    return None
+                idx, off = off // esz, off % esz
+                bound = t[i + 1:j].strip()
+                if bound.isdigit() and idx >= int(bound):
+                    return None
+                node = node['elems'][idx] if idx < len(node['elems']) else 0
+                t = et
+            elif isinstance(node, dict) and node.get('k') == 'init' and node.get('fields') is not None:
+                r = self.prog.records.get(node.get('record'))
+                if not r or 'fields' not in r:
+                    return None
+                hit = None
+                for f in r['fields']:
+                    if f.get('offset') is not None and f.get('size') and f['offset'] <= off < f['offset'] + f['size']:
+                        hit = f
+                        break
+                if hit is None:
+                    return None
+                node = node['fields'].get(hit['name'], 0)
+                off -= hit['offset']
+                t = hit.get('type') or ''
+            else:
+                break
+            if isinstance(node, int):
+                return 0 if node == 0 else None
+        if off != 0 or (isinstance(node, dict) and node.get('k') == 'init'):
+            return None
+        return node
+
+    def const_node(self, L):
+        """initialiser node of the cell / sub-object L of a never-written file-scope object (0 for a part the initialiser
+        leaves out), else None"""
+        steps = []
+        X = L
+        while X[0] in ('fld', 'idx'):
+            steps.append(X)
+            X = X[1]
+        if X[0] != 'var' or len(X) != 2 or X[1] not in self.globals:
+            return None
+        name = X[1]
+        node = self._const_global(name)[0]
         if node is None:
             return None
         for stp in reversed(steps):
@@ -416,13 +598,84 @@ class Machine(object):
                 if stp[3] not in fl:
                     return 0
                 node = fl[stp[3]]
-        if not isinstance(node, dict) or node.get('k') == 'init':
+        return node
+
+    def value_set(self, L, k):
+        """the values a pointer-typed cell of a static file-scope object can hold: its initialiser (NULL without one) and
+        what the program's stores to that cell assign, provided all of them are link-time constants (the address of a
+        table entry / operations record / function selected once at start-up).  None when the cell is not of that kind."""
+        if k in self._vsets:
+            return self._vsets[k]
+        self._vsets[k] = None
+        root = self.root_of(L)
+        if k[0] != 'mem' or root[0] != 'var' or len(root) != 2 or root[1] not in self.globals:
             return None
-        try:
-            v = self.ev(node, St())
-        except NeedDecision:
+        cur = getattr(self.fn, 'inlined_from', None) or self.fn
+        unit = self.prog.unit_of(cur)
+        g = self.prog.global_for(unit, root[1]) if unit else self.prog.globals.get(root[1])
+        if not isinstance(g, dict) or not g.get('static'):
             return None
-        return v if isinstance(v, int) or (isinstance(v, tuple) and v and v[0] in ('func', 'str')) else None
+
+        def const(v):
+            if isinstance(v, bool):
+                return False
+            if isinstance(v, int):
+                return v == 0
+            if isinstance(v, tuple) and len(v) == 2 and v[0] == 'func':
+                return True
+            if is_ptr(v) and isinstance(v[2], int):
+                r = self.root_of(v[1])
+                if r[0] != 'var' or len(r) != 2 or self.locaddr(v[1]) is None:
+                    return False
+                if r[1] not in self.globals:
+                    # a file-scope object that only the initialiser / the selecting function names
+                    if (self.prog.global_for(unit, r[1]) if unit else self.prog.globals.get(r[1])) is None:
+                        return False
+                    self.globals.add(r[1])
+                return True
+            return False
+
+        vals = []
+        seen_ptr = False
+        init = g.get('init')
+        if init is None:
+            v0 = 0
+        else:
+            node = self.const_at_node(init, g.get('type') or '', k[2])
+            if node is None:
+                return None
+            try:
+                v0 = node if isinstance(node, int) else self.ev(node, St())
+            except (NeedDecision, NeedValues, Trap):
+                return None
+        if not const(v0):
+            return None
+        vals.append(v0)
+        writers = self.prog.global_writers(root[1])
+        if not writers:
+            return None
+        for (f, e) in writers:
+            try:
+                L2 = self.lv(e['lhs'], St())
+                if self.key(L2) != k:
+                    if self.locaddr(L2) is None:
+                        return None
+                    continue
+                if e.get('op') != '=':
+                    return None
+                v = self.ev(e['rhs'], St())
+            except (NeedDecision, NeedValues, Trap):
+                return None
+            if not const(v):
+                return None
+            if v != 0:
+                seen_ptr = True
+            if v not in vals:
+                vals.append(v)
+        if not seen_ptr or len(vals) > 8:
+            return None
+        self._vsets[k] = vals
+        return vals
 
     def write(self, st, L, v):
         st.mem[self.key(L)] = v
@@ -460,7 +713,7 @@ class Machine(object):
         """location designated by an lvalue expression"""
         k = e.get('k')
         if k == 'var':
-            return ('var', e['name'])
+            return self.vloc(st, e['name'], e.get('vk'))
         if k == 'member':
             if e['arrow']:
                 obj = self.deref(self.ev(e['base'], st))
@@ -476,7 +729,18 @@ class Machine(object):
             if isinstance(bb, dict) and bb.get('k') in ('var', 'member', 'index', 'deref') and self.pointee(self.static_type(bb)) is not None \
                     and '[' in (self.static_type(bb) or ''):
                 esz = self.sizeof_type(e.get('type'))
-                return ('idx', self.lv(bb, st), i, esz)
+                bl = self.lv(bb, st)
+                if isinstance(i, Sym):
+                    # an opaque index into a constant table: the index is one of the table's positions
+                    node = self.const_node(bl)
+                    while isinstance(node, dict) and node.get('k') in ('cast', 'compound') and isinstance(node.get('e'), dict):
+                        node = node['e']
+                    if isinstance(node, dict) and node.get('k') == 'init' and node.get('elems'):
+                        lo, hi, ne = st.rng(i)
+                        cands = [c for c in range(len(node['elems'])) if lo <= c <= hi and c not in ne]
+                        if cands and len(cands) <= 16:
+                            raise NeedValues(i, cands)
+                return ('idx', bl, i, esz)
             p = self.ev(b, st)
             return self.deref(self.padd(p, i, self.sizeof_type(e.get('type'))))
         if k == 'deref':
@@ -580,6 +844,10 @@ class Machine(object):
             if ik == 'var' and inner.get('vk') == 'func':
                 return ('func', inner['name'])
             if ik in ('var', 'member', 'index', 'deref'):
+                t = inner.get('type') or ''
+                if '[' in t and self.pointee(t) is not None:
+                    # an array-valued argument substituted for a parameter: the value of an array is its address
+                    return self.mkptr(self.lv(inner, st))
                 return self.read(st, self.lv(inner, st))
             # the inliner substituted an argument value for a parameter: load(rvalue) is the rvalue
             return self.ev(inner, st)
@@ -602,8 +870,8 @@ class Machine(object):
             if vk == 'enum':
                 return e.get('v', 0)
             if e['name'].startswith('$ret'):
-                return self.read(st, ('var', e['name']))     # the inliner's return temporary stands for the call's value
-            return ('ptr', ('var', e['name']), 0)       # array decays to a pointer to itself
+                return self.read(st, self.vloc(st, e['name'], vk))     # the inliner's return temporary stands for the call's value
+            return ('ptr', self.vloc(st, e['name'], vk), 0)       # array decays to a pointer to itself
         if k in ('member', 'index', 'deref'):
             return self.mkptr(self.lv(e, st))             # array member decays / function designator
         if k == 'addr':
@@ -702,19 +970,21 @@ class Machine(object):
             # the value of an inlined call: uses in the same source block were rewritten to the $ret temporary by the
             # inliner; a use in a later block (the join of a ternary, say) still spells the call
             if e.get('retvar'):
-                v = self.peek(st, ('var', e['retvar']))
+                v = self.peek(st, self.vloc(st, e['retvar'], 'local'))
                 if v is not None:
                     for t in e.get('targets', []):
                         st.calls[(t.split(':')[-1], e.get('loc'))] = v
             return None
         if ev == 'decl':
-            L = ('var', e['name'])
+            L = self.vloc(st, e['name'], 'staticlocal' if e.get('static') else 'local')
             self.forget(st, L)
             if 'init' in e and isinstance(e['init'], dict):
-                self.write(st, L, Sym(('init', e['name'])))
+                self.init_object(st, L, e['init'], e.get('type') or '')
             return None
         if ev == 'store':
             L = self.lv(e['lhs'], st)
+            if self.root_of(L) == ('obj', 0):
+                raise Trap()
             op = e['op']
             if op == '=':
                 v = self.ev(e['rhs'], st)
@@ -745,19 +1015,71 @@ class Machine(object):
             if e.get('callee') in IDENTITY_CALLS and args:
                 self.set_result(st, e, args[0])
                 return None
+            # a call through a function value that designates a function with a body is that function's call: the
+            # environment model sees it under the function's name, and unless the model supplies the behaviour
+            # (library primitives) the body is executed in a frame of its own
+            target = self.target_of(st, e, fv)
+            callee = e.get('callee')
+            if callee is None and isinstance(fv, tuple) and len(fv) == 2 and fv[0] == 'func':
+                callee = fv[1]
+            r = None
             if self.call_model:
-                r = self.call_model(self, st, e, e.get('callee'), fv, args)
-                if r is not None:
+                r = self.call_model(self, st, e, callee, fv, args, target)
+                if r is not None and r != 'enter':
                     return r
+            if target is not None and (r == 'enter' or 'fnexpr' in e):
+                return ('enter', target, args)
             self.generic_call(st, e, args)
             return None
         if ev == 'ret':
             if e.get('chain'):
                 return None          # return of an inlined helper: its value was stored to the $ret temporary
-            st.marks['ret'] = self.ev(e['value'], st) if 'value' in e else None
+            v = self.ev(e['value'], st) if 'value' in e else None
+            if st.stack:
+                return ('leave', v)
+            st.marks['ret'] = v
             st.marks['retloc'] = e.get('loc')
             return 'ret'
         return None
+
+    def init_object(self, st, L, node, t):
+        """a local aggregate with an initialiser list (a small table, a job record): every named cell gets its value, the
+        cells the list leaves out are zero"""
+        while isinstance(node, dict) and node.get('k') in ('cast', 'compound') and isinstance(node.get('e'), dict) \
+                and node['e'].get('k') == 'init':
+            node = node['e']
+        if not isinstance(node, dict) or node.get('k') != 'init':
+            self.write(st, L, self.ev(node, st) if isinstance(node, dict) else Sym(('init', show_loc(L))))
+            return
+        if node.get('elems') is not None:
+            et = ''
+            if '[' in t:
+                i, j = t.index('['), t.index(']')
+                et = (t[:i] + t[j + 1:]).strip()
+            esz = self.sizeof_type(et) if et and '[' not in et else None
+            n = len(node['elems'])
+            bound = node.get('bound')
+            if '[' in t and t[t.index('[') + 1:t.index(']')].strip().isdigit():
+                bound = int(t[t.index('[') + 1:t.index(']')])
+            for i in range(min(max(n, bound or 0), 256)):
+                cell = ('idx', L, i, esz)
+                if i < n:
+                    self.init_object(st, cell, node['elems'][i], et)
+                else:
+                    self.write(st, cell, 0)
+            return
+        if node.get('fields') is not None:
+            rec = node.get('record')
+            r = self.prog.records.get(rec)
+            ftypes = {f['name']: f.get('type') or '' for f in (r.get('fields') or [])} if r else {}
+            for name in list(ftypes) + [x for x in node['fields'] if x not in ftypes]:
+                cell = ('fld', L, rec, name)
+                if name in node['fields']:
+                    self.init_object(st, cell, node['fields'][name], ftypes.get(name, ''))
+                elif '[' not in ftypes.get(name, '') and not ftypes.get(name, '').startswith(('struct ', 'union ')):
+                    self.write(st, cell, 0)
+            return
+        self.write(st, L, Sym(('init', show_loc(L))))
 
     def generic_call(self, st, e, args, value=None):
         for a in args:
@@ -779,9 +1101,11 @@ class Machine(object):
             if len(done) + len(work) > self.max_paths:
                 raise AnalysisBroken('%s: more than %d paths under one abstract input' % (fn.name, self.max_paths))
             while True:
-                blk = fn.blocks[b]
+                cur = self.curfn(st)
+                blk = cur.blocks[b]
                 evs = blk.events
                 forked = False
+                jumped = False
                 while i < len(evs):
                     st.steps += 1
                     if st.steps > self.max_steps:
@@ -797,6 +1121,23 @@ class Machine(object):
                         work.append((b, i, st))
                         forked = True
                         break
+                    except NeedValues as nv:
+                        for c in nv.values:
+                            s1 = st.fork()
+                            if nv.key is not None:
+                                s1.mem[nv.key] = c
+                            else:
+                                s1.assume(('==', nv.sym, c), True)
+                            s1.marks['fresh'] = True
+                            work.append((b, i, s1))
+                        forked = True
+                        break
+                    except Trap:
+                        if st.marks.get('fresh'):
+                            st.marks['last_branch_opaque'] = True
+                        done.append(('fatal', st))
+                        forked = True
+                        break
                     if r == 'ret':
                         done.append(('ret', st))
                         forked = True
@@ -806,14 +1147,28 @@ class Machine(object):
                             work.append((b, i + 1, s2))
                         forked = True
                         break
+                    if isinstance(r, tuple) and r[0] == 'enter':
+                        g = self.enter(st, evs[i], r[1], r[2], b, i + 1)
+                        b, i = g.entry, 0
+                        jumped = True
+                        break
+                    if isinstance(r, tuple) and r[0] == 'leave':
+                        b, i = self.leave(st, r[1])
+                        jumped = True
+                        break
                     i += 1
                 if forked:
                     break
+                if jumped:
+                    continue
                 if blk.noreturn:
                     done.append(('fatal', st))
                     break
                 succ = blk.succ
                 if not succ or all(s is None for s in succ):
+                    if st.stack:
+                        b, i = self.leave(st, None)      # a void function entered by value ran to its end
+                        continue
                     done.append(('exit', st))
                     break
                 if len(succ) == 1:
@@ -829,6 +1184,21 @@ class Machine(object):
                     s1.marks['fresh'] = st.marks['fresh'] = True
                     work.append((b, i, s1))
                     work.append((b, i, st))
+                    break
+                except NeedValues as nv:
+                    for c in nv.values:
+                        s1 = st.fork()
+                        if nv.key is not None:
+                            s1.mem[nv.key] = c
+                        else:
+                            s1.assume(('==', nv.sym, c), True)
+                        s1.marks['fresh'] = True
+                        work.append((b, i, s1))
+                    break
+                except Trap:
+                    if st.marks.get('fresh'):
+                        st.marks['last_branch_opaque'] = True
+                    done.append(('fatal', st))
                     break
                 if nxt == 'all':
                     for s_ in succ[1:]:
